@@ -12,6 +12,8 @@
 // <cuts> = "-" or comma separated ascending cut positions (0 < c < len).
 #include "common.hpp"
 
+#include <csignal>
+#include <thread>
 #include <osmium/io/o5m_input.hpp>
 #include <osmium/io/opl_input.hpp>
 #include <osmium/io/pbf_input.hpp>
@@ -131,6 +133,13 @@ static std::string digest_object(const osmium::OSMEntity& e) {
         const auto& c = static_cast<const osmium::Changeset&>(e);
         s += " " + std::to_string(c.id()) + " " + std::to_string(c.uid()) + " " + c.user();
         for (const auto& t : c.tags()) { s += " T"; s += t.key(); s += "="; s += t.value(); }
+        s += " k" + std::to_string(c.num_changes()) + " d" + std::to_string(c.num_comments()) +
+             " s" + std::to_string(static_cast<uint32_t>(c.created_at())) + " e" + std::to_string(static_cast<uint32_t>(c.closed_at())) +
+             " B" + std::to_string(c.bounds().bottom_left().x()) + "," + std::to_string(c.bounds().bottom_left().y()) + "," +
+             std::to_string(c.bounds().top_right().x()) + "," + std::to_string(c.bounds().top_right().y());
+        for (const auto& cm : c.discussion()) {
+            s += " C" + std::to_string(static_cast<uint32_t>(cm.date())) + ":" + std::to_string(cm.uid()) + ":" + vh::hex(cm.user()) + ":" + vh::hex(cm.text());
+        }
         return s;
     }
     const auto& o = static_cast<const osmium::OSMObject&>(e);
@@ -184,8 +193,65 @@ static std::string run_reader(const std::string& fmt, const std::vector<std::str
     return "ok n=" + std::to_string(n) + " h=" + std::to_string(h) + " hdr=" + vh::hex(hdr);
 }
 
+// The same bytes through a FIFO: a writer thread hands the pieces to the kernel with pauses in
+// between, so read(2) on the Reader's side returns short counts in the middle of the stream
+// (pipes, stdin, child processes).  The REAL NoDecompressor / PBF fd reader are used.
+static std::string run_reader_fifo(const std::string& fmt, const std::vector<std::string>& pieces, const std::string& dir) {
+    static int counter = 0;
+    const std::string path = dir + "/fifo-" + std::to_string(getpid()) + "-" + std::to_string(++counter) + "." + fmt;
+    ::unlink(path.c_str());
+    if (::mkfifo(path.c_str(), 0600) != 0) return "bad-op";
+    std::thread writer{[&]() {
+        const int fd = ::open(path.c_str(), O_WRONLY);
+        if (fd < 0) return;
+        for (const auto& p : pieces) {
+            std::size_t off = 0;
+            while (off < p.size()) {
+                const auto r = ::write(fd, p.data() + off, p.size() - off);
+                if (r <= 0) { ::close(fd); return; }
+                off += static_cast<std::size_t>(r);
+            }
+            ::usleep(1500);
+        }
+        ::close(fd);
+    }};
+    uint64_t h = 1469598103934665603ULL;
+    std::size_t n = 0;
+    std::string hdr;
+    std::string res;
+    try {
+        osmium::io::File file{path, fmt};
+        osmium::io::Reader reader{file};
+        const auto header = reader.header();
+        hdr = header.get("generator");
+        for (const auto& b : header.boxes()) {
+            hdr += "|" + std::to_string(b.bottom_left().x()) + "," + std::to_string(b.bottom_left().y()) + "," +
+                   std::to_string(b.top_right().x()) + "," + std::to_string(b.top_right().y());
+        }
+        hdr += header.has_multiple_object_versions() ? "|H" : "";
+        while (osmium::memory::Buffer buffer = reader.read()) {
+            for (const auto& e : buffer.select<osmium::OSMEntity>()) {
+                h = fnv(digest_object(e) + "\n", h);
+                ++n;
+            }
+        }
+        reader.close();
+        res = "ok n=" + std::to_string(n) + " h=" + std::to_string(h) + " hdr=" + vh::hex(hdr);
+    } catch (const std::exception& e) {
+        res = "err:" + class_of(e) + ":" + std::to_string(fnv(e.what()) % 100000000ULL) + (getenv("C06_WHAT") ? std::string{" "} + e.what() : std::string{});
+    }
+    {   // unblock a writer that is still waiting (Reader gave up early): drain the FIFO
+        const int fd = ::open(path.c_str(), O_RDONLY | O_NONBLOCK);
+        writer.join();
+        if (fd >= 0) ::close(fd);
+    }
+    ::unlink(path.c_str());
+    return res;
+}
+
 int main(int argc, char** argv) {
     const std::string dir = argc > 1 ? argv[1] : ".";
+    ::signal(SIGPIPE, SIG_IGN);
     // NOTE: no real gzip support is compiled in (no gzip_compression.hpp), so this registration is the only one
     osmium::io::CompressionFactory::instance().register_compression(
         osmium::io::file_compression::gzip,
@@ -315,6 +381,11 @@ int main(int argc, char** argv) {
                 const std::string bytes{std::istreambuf_iterator<char>{in}, std::istreambuf_iterator<char>{}};
                 ::unlink(path.c_str());
                 return vh::hex(bytes);
+            }
+            if (w[0] == "fifo" && w.size() == 4) {
+                std::string data;
+                if (!vh::unhex(w[3], data)) return "bad-op";
+                return run_reader_fifo(w[1], split_pieces(data, w[2]), dir);
             }
             if (w[0] == "reader" && w.size() == 4) {
                 std::string data;
